@@ -11,19 +11,22 @@ git -C /repo worktree add -q --detach $w HEAD || exit 2
 cleanup() { git -C /repo worktree remove --force $w 2>/dev/null; }
 trap cleanup EXIT
 demo=$(ls $src/*.go | head -1)
-mkdir -p $w/$(dirname $dest); cp $demo $w/$dest
+ddir=$(dirname $dest)
+putdemo() { mkdir -p $w/$ddir; for f in $src/*.go; do cp $f $w/$ddir/; done; }
+rmdemo() { for f in $src/*.go; do rm -f $w/$ddir/$(basename $f); done; }
+putdemo
 cd $w
 base=$(go test -vet=off -count=1 -run "$re" $pkg 2>&1 | tail -3)
 echo "$base" | grep -q "^ok" && bres=pass || bres=FAIL
 if ! git apply $src/patch.diff 2>/tmp/apply.err; then echo "PATCH DOES NOT APPLY: $(cat /tmp/apply.err | head -2)"; exit 3; fi
 go build ./... 2>&1 | tail -2
-rm -f $w/$dest
+rmdemo
 suite=$(go test -vet=off -count=1 ./... 2>&1 | grep -v "^ok\|no test files" | head -5)
 [ -z "$suite" ] && sres=pass || sres="FAIL: $suite"
-cp $demo $w/$dest
+putdemo
 with=$(go test -vet=off -count=1 -run "$re" $pkg 2>&1 | tail -4)
 echo "$with" | grep -q "^ok" && wres=pass || wres=FAIL
-rm -f $w/$dest
+rmdemo
 echo "demo without patch: $bres | suite with patch: $sres | demo with patch: $wres"
 det=""
 for pp in $prop "$@"; do
@@ -33,7 +36,7 @@ for pp in $prop "$@"; do
 done
 if [ "$bres" = pass ] && [ "$sres" = pass ] && [ "$wres" = FAIL ]; then
   d=/verif/seeded/${prop}_$x; mkdir -p $d
-  cp $src/patch.diff $d/patch.diff; cp $demo $d/; cp $src/demo.txt $d/demo.txt 2>/dev/null
+  cp $src/patch.diff $d/patch.diff; cp $src/*.go $d/; cp $src/demo.txt $d/demo.txt 2>/dev/null
   python3 - "$prop" "$x" "$dest" "$pkg" "$re" "$det" "$src/meta.txt" <<'PY'
 import json,sys
 prop,x,dest,pkg,re_,det,meta=sys.argv[1:8]
